@@ -155,6 +155,15 @@ func GenRecord(r *rng.Rand, n *spec.Node, validPct int, o FrontOpts) any {
 		// text that looks like syntax of some source: quotes, escapes, separators
 		return []string{`"quoted"`, `""`, `'single'`, `a=b&c`, `x;y`, `100%`, `a+b`, `C:\dir`, `{"j":1}`, `[1]`, `$HOME`, `#frag`}[r.Intn(12)]
 	}
+	// numbers standing for a bool (1 / 0) or a time (unix seconds): a JSON document carries them as float64, a Go map as int
+	if n.Kind == spec.Bool && r.Intn(8) == 0 {
+		return r.Intn(2)
+	}
+	if n.Kind == spec.Time && !o.Flat && r.Intn(8) == 0 {
+		if t, ok := n.Witness.(time.Time); ok {
+			return int(t.Unix()) + r.Intn(3)*3600
+		}
+	}
 	if c < validPct {
 		return recLeaf(n, n.Witness)
 	}
@@ -188,15 +197,8 @@ func recLeaf(n *spec.Node, v any) any {
 		return s
 	case time.Time:
 		return x.Truncate(time.Second)
-	case int:
-		if x > 1<<53 || x < -(1<<53) {
-			return n.Witness // not exactly representable as a JSON number
-		}
-	case int64:
-		if x > 1<<53 || x < -(1<<53) {
-			return n.Witness
-		}
 	}
+	// (integers beyond 2^53 are kept: a JSON document carries them exactly and the front end has to hand them over exactly)
 	return v
 }
 
